@@ -16,7 +16,7 @@ from typing import List
 
 import billiard.managers as bm
 import billiard.connection as bc
-from harness.hbase import fail, tier, Prune, ND, realize, untraced, PART, NPART
+from harness.hbase import fail, tier, Prune, ND, realize, untraced, PART, NPART, NDCode, CODEMAX
 
 K = tier(2, 3)
 SERVERS = {}
@@ -191,5 +191,113 @@ def h_history(ops: List[int], xs: List[int], wrong_key: bool) -> bool:
     """
     try:
         return _history(('list', 'dict')[PART % 2], ops, xs, wrong_key)
+    except Prune:
+        return True
+
+
+# ---------------------------------------------------------------------------
+# a typeid whose callable hands out an object the server already tracks (the documented get_queue idiom),
+# and lock-like referents: the proxy passes the caller's arguments on exactly
+
+class VLock:
+    """a lock-like referent that records how it was called and never blocks"""
+
+    def __init__(self):
+        self.calls = []
+        self.held = False
+
+    def acquire(self, blocking=True, timeout=-1):
+        self.calls.append((blocking, timeout))
+        if self.held:
+            return False
+        self.held = True
+        return True
+
+    def release(self):
+        self.held = False
+
+
+SHARED = {}
+
+
+def _get_shared():
+    return SHARED['obj']
+
+
+def _shared_and_locks(code, want):
+    nd = NDCode(code)
+    which = nd.draw(0, 1)
+    with untraced():
+        bm.SyncManager.register('vp_shared', callable=_get_shared, proxytype=bm.ListProxy)
+        bm.SyncManager.register('vp_lock', callable=VLock, proxytype=bm.AcquirerProxy)
+        m, srv = setup()
+    if which == 0:
+        SHARED['obj'] = [1, 2, 3]
+        p1 = m.vp_shared()
+        p2 = m.vp_shared()               # the same referent again
+        ident = p1._id
+        if p2._id != ident:
+            raise Prune()
+        if srv.id_to_refcount.get(ident) != 2:
+            return fail('C20:refcount:second-proxy-to-a-tracked-object-not-counted')
+        order = nd.draw(0, 1)
+        first, second = (p1, p2) if order == 0 else (p2, p1)
+        first._close()
+        if want:
+            return False
+        if ident not in srv.id_to_obj or srv.id_to_refcount.get(ident) != 1:
+            return fail('C20:lifetime:referent-disposed-while-proxies-exist')
+        try:
+            if second[0] != 1 or len(second) != 3:
+                return fail('C20:call:result-differs-from-local-object:shared')
+        except Exception:
+            return fail('C20:lifetime:referent-disposed-while-proxies-exist')
+        second._close()
+        if ident in srv.id_to_obj:
+            return fail('C20:lifetime:referent-kept-after-last-proxy-released')
+        return True
+    # lock-like referent: acquire(blocking, timeout) through the proxy == the same call on the local object
+    lk = m.vp_lock()
+    obj = srv.id_to_obj[lk._id][0]
+    local = VLock()
+    blocking = nd.flag()
+    tsel = nd.draw(0, 3)
+    timeout = (None, 0, 1, -1)[tsel]
+    held = nd.flag()
+    obj.held = local.held = held
+    if timeout is None:
+        exp = local.acquire(blocking)
+        got = lk.acquire(blocking)
+    else:
+        exp = local.acquire(blocking, timeout)
+        got = lk.acquire(blocking, timeout)
+    if want:
+        return False
+    if got != exp:
+        return fail('C20:call:result-differs-from-local-object:lock')
+    if obj.calls != local.calls:
+        return fail('C20:call:arguments-altered-by-the-proxy:lock')
+    lk._close()
+    return True
+
+
+def h_shared_and_locks(code: int) -> bool:
+    """
+    pre: 0 <= code < CODEMAX
+    post: _
+    """
+    try:
+        return _shared_and_locks(code, False)
+    except Prune:
+        return True
+
+
+def h_shared_and_locks_twin(code: int) -> bool:
+    """
+    pre: 0 <= code < CODEMAX
+    post: _
+    """
+    try:
+        return _shared_and_locks(code, True)
     except Prune:
         return True
